@@ -30,6 +30,9 @@ MUTANTS = {
          "                    continue; /* interrupted by spurious signal */\n"),
         ("connect-fail-counts-done", "src/pdsh/dsh.c", "        result = DSH_FAILED;    /* connect failed */", "        result = DSH_DONE;    /* connect failed */"),
         ("noS-returns-max", "src/pdsh/dsh.c", "    if (opt->ret_remote_rc) {\n        for (i = 0; t[i].host", "    if (1) {\n        for (i = 0; t[i].host"),
+        ("wait-nohang-poll", "src/common/pipecmd.c", "    if (waitpid (p->pid, &status, 0) < 0)\n",
+         "    { int i_, r_ = 0; for (i_ = 0; i_ < 50 && (r_ = waitpid (p->pid, &status, WNOHANG)) == 0; i_++) usleep (10000);\n"
+         "      if (r_ == 0) status = 0; }\n    if (0)\n"),
         ("marker-last-occurrence", "src/pdsh/dsh.c", "        p += strlen(RC_MAGIC);\n        ret = atoi(p);", "        p += strlen(RC_MAGIC);\n        ret = atoi(p + 1);"),
     ],
     "C18": [
